@@ -526,6 +526,7 @@ func whProp(prop string) propFn {
 				if err := json.Unmarshal(raw, &cs); err != nil {
 					panic(err)
 				}
+				c.Pending(&cs)
 				whRun(&cs, r)
 				emit(&cs)
 			}
@@ -541,6 +542,7 @@ func whProp(prop string) propFn {
 				big = i
 			}
 			cs := whGen(prop, r, big)
+			c.Pending(cs)
 			whRun(cs, r)
 			emit(cs)
 		}
